@@ -47,6 +47,16 @@ struct io_error : public std::runtime_error {
     explicit io_error(const char* w) : std::runtime_error(w) {}
 };
 
+// NUL layout premise: tags are walked by searching for the terminator
+class Tag {
+    const unsigned char* m_data = nullptr;
+    static const unsigned char* after_null(const unsigned char* ptr) noexcept {
+        return reinterpret_cast<const unsigned char*>(std::strchr(reinterpret_cast<const char*>(ptr), 0) + 1);
+    }
+public:
+    const unsigned char* next() const noexcept { return after_null(after_null(m_data)); }
+};
+
 class RelationMember {
 public:
     void set_role_size(string_size_type) noexcept {}
@@ -187,6 +197,12 @@ class PBFPrimitiveBlockDecoder {
         return m_stringtable.at(id).first;
     }
 
+    // NUL: string table entries (length-delimited, may contain NUL) copied with their length
+    void tags(osmium::builder::TagListBuilder& builder, unsigned int id) {
+        const auto& k = m_stringtable.at(id);
+        builder.add_tag(k.first, k.second, k.first, k.second);
+    }
+
     // G6: no range test before the cast
     osmium::item_type member_type(int type) {
         return static_cast<osmium::item_type>(type + 1);
@@ -195,6 +211,9 @@ class PBFPrimitiveBlockDecoder {
 public:
     // G1: out_of_range from role() is not mapped
     const char* operator()() {
+        osmium::builder::TagListBuilder tlb;
+        tags(tlb, 0);
+        (void)osmium::Tag{}.next();
         decode_stringtable(view{nullptr, 0});
         (void)member_type(1);
         (void)user(1);
